@@ -249,8 +249,8 @@ func H_C19_typed(v *V) {
 		v.Assume(len(rs) >= 2)
 		data = vTagged(v, "s", []string{"short:" + refQuote(S)})
 		want = ErrShortNameTooLong
-	case 1: // default on a boolean flag
-		data = vTagged(v, "b", []string{`long:"bb" default:` + refQuote(v.String(1))})
+	case 1: // default on a boolean flag (bool, slice of bool, argument-less callback)
+		data = vTagged(v, []string{"b", "bs", "fn"}[v.Choice(3)], []string{`long:"bb" default:` + refQuote(v.String(1))})
 		want = ErrInvalidTag
 	case 2: // two options sharing a short name
 		R := v.String(v.Shape("lv"))
